@@ -63,6 +63,7 @@ struct coro_queue {
         void flush_queue() noexcept {
             while (!_queue.empty()) {
                 auto h = std::move(_queue.front());
+                COCLS_VERIF_LOG("q_deq", reinterpret_cast<long>(h.address()), 0);
                 _queue.pop_front();
                 h.resume();
             }
@@ -70,6 +71,7 @@ struct coro_queue {
         }
 
         void push(std::coroutine_handle<> h) {
+            COCLS_VERIF_LOG("q_enq", reinterpret_cast<long>(h.address()), 0);
             return _queue.push_back(h);
         }
 
@@ -131,6 +133,7 @@ struct coro_queue {
 
         if (instance) {
             assert("Attempt to resume empty handle " && h);
+            COCLS_VERIF_LOG("q_enq", reinterpret_cast<long>(h.address()), 0);
             instance->_queue.push_back(h);
         } else {
             install_queue_and_resume(h);
@@ -147,8 +150,10 @@ struct coro_queue {
      */
     static std::coroutine_handle<> swap_coroutine(std::coroutine_handle<> h) noexcept {
         if (instance) {
+            COCLS_VERIF_LOG("q_enq", reinterpret_cast<long>(h.address()), 0);
             instance->_queue.push_back(h);
             h = instance->_queue.front();
+            COCLS_VERIF_LOG("q_deq", reinterpret_cast<long>(h.address()), 0);
             instance->_queue.pop_front();
             return h;
         } else {
@@ -179,6 +184,7 @@ struct coro_queue {
     static std::coroutine_handle<> resume_handle_next() noexcept {
         if (instance && !instance->_queue.empty()) {
             auto h = instance->_queue.front();
+            COCLS_VERIF_LOG("q_deq", reinterpret_cast<long>(h.address()), 0);
             instance->_queue.pop_front();
             return h;
         } else {
@@ -211,8 +217,10 @@ inline thread_local coro_queue::queue_impl coro_queue::queue_impl::instance;
 struct pause: std::suspend_always {
     std::coroutine_handle<> await_suspend(std::coroutine_handle<> h) {
         auto &queue = coro_queue::instance->_queue;
+        COCLS_VERIF_LOG("q_enq", reinterpret_cast<long>(h.address()), 0);
         queue.push_back(h);
         h = queue.front();
+        COCLS_VERIF_LOG("q_deq", reinterpret_cast<long>(h.address()), 0);
         queue.pop_front();
         return h;
     }
